@@ -285,7 +285,7 @@ def c04_cases():
                     q = (mask in (0b0000111, 0b0001011) and d and src == 0 and wtd) or (mask == 0b0111 and not d and src == 1 and wtd) or (mask == 0b0001011 and d and src == 0 and not wtd)
                     tier = "quick" if q else "thorough"
                     wn = "w" if wtd else "h"
-                    out.append(("c04_all_%s_m%03d_s%d_%s" % (nm, mask, src, wn), "c04_all_paths(%s, %d, %d, %s)" % (B[d], mask, src, B[wtd]), tier, ["reached end"],
+                    out.append(("c04_all_%s_m%03d_s%d_%s" % (nm, mask, src, wn), "c04_all_paths(%s, %d, %d, %s, 255)" % (B[d], mask, src, B[wtd]), tier, ["reached end"],
                                 "%s 3-node topology mask %s, source position %d, %s: dijkstra all-paths vs Bellman-Ford + path-count oracle; integer weights 1..8 symbolic" % ("directed" if d else "undirected", bin(mask), src, "weighted" if wtd else "hop count")))
     return out
 
@@ -297,9 +297,9 @@ def c08_cases():
         for mask in masks:
             for src in (0, 1, 2):
                 q = (mask == 0b0001011 and src == 0) or (mask == 0b0111 and src == 1 and not d)
-                out.append(("c08_var_%s_m%03d_s%d" % (nm, mask, src), "c08_variants(%s, %d, %d, true)" % (B[d], mask, src), "quick" if q else "thorough", ["reached end"],
+                out.append(("c08_var_%s_m%03d_s%d" % (nm, mask, src), "c08_variants(%s, %d, %d, true, 255)" % (B[d], mask, src), "quick" if q else "thorough", ["reached end"],
                             "%s mask %s source %d: dijkstra_basic == dijkstra distances; with_paths=false; first_only returns one shortest path; option dispatch" % ("directed" if d else "undirected", bin(mask), src)))
-                out.append(("c08_tc_%s_m%03d_s%d" % (nm, mask, src), "c08_target_cutoff(%s, %d, %d, true)" % (B[d], mask, src), "quick" if q else "thorough", ["reached end"],
+                out.append(("c08_tc_%s_m%03d_s%d" % (nm, mask, src), "c08_target_cutoff(%s, %d, %d, true, 255)" % (B[d], mask, src), "quick" if q else "thorough", ["reached end"],
                             "%s mask %s source %d: symbolic target and symbolic cutoff (every integer and half-integer threshold up to 20) vs the unrestricted answer" % ("directed" if d else "undirected", bin(mask), src)))
     return out
 
